@@ -100,13 +100,14 @@ func (c RuleLinkCheck) Check(ctx context.Context, entry discovery.Entry, _ []dis
 		rctx, cancel := context.WithTimeout(ctx, c.timeout)
 		defer cancel()
 
-		req, _ := http.NewRequestWithContext(rctx, http.MethodGet, uri, nil)
-
-		for k, v := range c.headers {
-			req.Header.Set(k, v)
+		var resp *http.Response
+		req, err := http.NewRequestWithContext(rctx, http.MethodGet, uri, nil)
+		if err == nil {
+			for k, v := range c.headers {
+				req.Header.Set(k, v)
+			}
+			resp, err = http.DefaultClient.Do(req)
 		}
-
-		resp, err := http.DefaultClient.Do(req)
 		if err != nil {
 			problems = append(problems, Problem{
 				Anchor: AnchorAfter,
